@@ -91,7 +91,7 @@ def only_pushes(path, target="diagnostics"):
     for e in path.effects:
         if e[0] == "push" and e[1] == target:
             continue
-        if e[0] in ("next",):
+        if e[0] in ("next", "next_end", "iterate", "iterate_end"):
             continue
         other.append(e)
     return other
